@@ -66,12 +66,13 @@ func phases(thorough bool) []phase {
 	crit1Pairs := pairs(func(a, b string) bool { return isCrit[a] || isCrit[b] })
 	core1Pairs := pairs(func(a, b string) bool { return isCore[a] || isCore[b] })
 	everySite := func(*Site) bool { return true }
-	noCtx := func(s *Site) bool { return s.Ctx == "" }
+	noCtx := func(s *Site) bool { return s.Ctx == "" && s.Opt == "" }
 	primaryNoCtx := func(s *Site) bool { return s.Ctx == "" && !s.Secondary }
 	if !thorough {
 		return []phase{
-			{"atoms", atoms, everySite},
-			{"pairs_of_critical_atoms", critPairs, func(s *Site) bool { return s.Ctx == "" || !s.Secondary }},
+			// every position x every option set, and every position x every context template (default options)
+			{"atoms", atoms, func(s *Site) bool { return s.Ctx == "" || s.Opt == "" }},
+			{"pairs_of_critical_atoms", critPairs, func(s *Site) bool { return (s.Ctx == "" && s.Opt == "") || !s.Secondary }},
 			{"pairs_with_a_critical_atom", crit1Pairs, primaryNoCtx},
 		}
 	}
